@@ -10,6 +10,7 @@
 From Coq Require Import List Reals Lra Lia Arith Bool QArith Qreals.
 From NV Require Import Scalar.Ops Model.Common Model.Basis Model.Knots Model.Eval Model.Homog Model.Hull
   Proofs.BasisR Proofs.LinComb Proofs.HomogR Proofs.HullR Proofs.HullR2 Proofs.HullLen Transfer.BasisT Transfer.HullT.
+From NV Require Import Proofs.HullPolyline.
 Import ListNotations.
 Open Scope R_scope.
 
@@ -223,3 +224,17 @@ Proof.
     repeat constructor; cbn; lra.
   - cbn. unfold Rltb. repeat (destruct (Rlt_dec _ _); try lra). reflexivity.
 Qed.
+
+(* ====================== round 2 (Proofs/HullPolyline.v): the polyline bound is now proved ====================== *)
+(* [G over R] any degree, any sorted knot vector (clamping not needed), any dimension, any non-decreasing parameter sequence
+   in the closed domain: the polyline through the evaluated points is not longer than the control polygon.  Direct proof:
+   C(u) = P_0 + sum_i T_i(u) (P_i - P_{i-1}) with T_i = sum_{j>=i} N_j non-decreasing in u, 0 <= T_i <= 1. *)
+Theorem C18_polyline_le_control_polygon : C18_polyline_le_control_polygon_full.
+Proof. exact polyline_le_control_polygon_full. Qed.
+Print Assumptions C18_polyline_le_control_polygon.
+
+(* [G] the classical corner-cutting facts (general polygons, any dimension) *)
+Theorem C18_polygon_skip_vertices : forall (dim : nat) (l' l : list (list R)),
+  subl l' l -> Forall (fun q => length q = dim) l -> (polyline_len l' <= polyline_len l)%R.
+Proof. exact polyline_skip. Qed.
+Print Assumptions C18_polygon_skip_vertices.
